@@ -386,7 +386,7 @@ class MLIRLexer(Lexer[MLIRTokenKind]):
         if current_char == '"':
             return self._lex_string_literal(start_pos)
 
-        if current_char.isnumeric():
+        if "0" <= current_char <= "9":
             return self._lex_number(start_pos)
 
         raise ParseError(
